@@ -408,6 +408,10 @@ func cmdLife(args []string) error {
 			hs: map[string]*rosmar.Bucket{}, fd: map[string]*lifeFeed{}}
 		os.MkdirAll(lr.scratch, 0755)
 		prevN := map[string]int{}
+		// feed goroutines of the previous behaviour end asynchronously after its cleanup: wait for them
+		for w := 0; w < 400 && rosmar.VerifActiveFeedCount() != 0; w++ {
+			time.Sleep(5 * time.Millisecond)
+		}
 		baseGor := int(rosmar.VerifActiveFeedCount())
 		reset := LifeLine{K: "reset", Tr: bi + 1, Act: LifeAct{Kind: "-", H: "h1", N: "-", U: "-", Mode: "-", C: "-", F: "-", Fk: "-"}, Res: "ok"}
 		lr.observe(&reset, prevN, baseGor)
